@@ -47,6 +47,33 @@ pub fn layout(spec: &SpaceSpec) -> Vec<Comp> {
     }
 }
 
+/// Offset of the `k`-th component in the flat encoding.
+pub fn comp_offset(lay: &[Comp], k: usize) -> usize {
+    lay[..k].iter().map(|c| c.width()).sum()
+}
+
+/// The harness's own unweighted metric on one component (used by component obstacles and
+/// component goal conditions; deliberately independent of the library's `distance`).
+pub fn comp_dist(c: &Comp, a: &[f64], b: &[f64]) -> f64 {
+    match c {
+        Comp::RV(n) => (0..*n).map(|i| (a[i] - b[i]) * (a[i] - b[i])).sum::<f64>().sqrt(),
+        Comp::SO2 => ((a[0] - b[0] + PI).rem_euclid(2.0 * PI) - PI).abs(),
+        Comp::SO3 => {
+            let dot = (a[0] * b[0] + a[1] * b[1] + a[2] * b[2] + a[3] * b[3]).abs();
+            2.0 * dot.min(1.0).acos()
+        }
+    }
+}
+
+/// Weight of every layout component in the space metric (1 for non-compound spaces).
+pub fn comp_weights(spec: &SpaceSpec) -> Vec<f64> {
+    match spec {
+        SpaceSpec::Compound { parts, weights } => parts.iter().zip(weights).flat_map(|(p, w)| layout(p).iter().map(|_| *w).collect::<Vec<_>>()).collect(),
+        SpaceSpec::SE2 { weight, .. } | SpaceSpec::SE3 { weight, .. } => vec![1.0, *weight],
+        _ => vec![1.0],
+    }
+}
+
 pub fn width(spec: &SpaceSpec) -> usize {
     layout(spec).iter().map(|c| c.width()).sum()
 }
